@@ -412,9 +412,9 @@ type apiLock struct {
 	lc olric.LockContext
 }
 
-func (l *apiLock) Unlock(ctx context.Context) error                   { return l.lc.Unlock(ctx) }
-func (l *apiLock) Lease(ctx context.Context, d time.Duration) error   { return l.lc.Lease(ctx, d) }
-func (l *apiLock) Token() string                                      { return "" }
+func (l *apiLock) Unlock(ctx context.Context) error                 { return l.lc.Unlock(ctx) }
+func (l *apiLock) Lease(ctx context.Context, d time.Duration) error { return l.lc.Lease(ctx, d) }
+func (l *apiLock) Token() string                                    { return "" }
 
 func (a *apiClient) Lock(ctx context.Context, key string, timeout, deadline time.Duration) (Lock, error) {
 	d, err := a.dm(key)
